@@ -632,6 +632,228 @@ def wide_multi_jobs(wjobs):
     return [{"mat": k, "cols": v} for k, v in by.items() if len(v) >= 2]
 
 
+# ------------------------------------------------------------------ scaled right-hand sides / tiny initial residuals
+# GMRES is homogeneous in the initial residual and invariant under the shift by x0 (TLC: MC_Gmres!ScaleShift on the
+# cases flagged hom): x_m(A, A x0 + c r0, x0) = x0 + c (x_m - x0) and rho_m / ||r0|| does not depend on c.  The real
+# code is run with right-hand sides scaled down to 1e-30 and with tiny residuals b - A x0 and judged *relative to the
+# initial residual it was given*:
+#     ||b' - A x|| / ||r0'|| <= rho_m / ||r0|| + RHS_C * eps * (cond(A) + (||A|| ||x0'|| + ||b'||) / ||r0'||)
+# (backward-stable solve; the last term is the floor set by representing x0' + correction in the working precision).
+# Measured, in these units, over every quick and thorough case: unchanged tree max 0.34 (complex128/float64) / 0.25
+# (float32); start block normalised by clip(norm, 1e-10) (seeded change C13_D): 1e11 .. 1e15 wherever ||r0'|| < 1e-10
+# and the iterate is truncated.
+RHS_C = {"f64": 64.0, "c128": 64.0, "f32": 64.0}
+RHS_SCALES = {"f64": (("1e-12", 1e-12), ("1e-15", 1e-15), ("1e-30", 1e-30)),
+              "c128": (("1e-12", 1e-12), ("1e-15", 1e-15), ("1e-30", 1e-30)),
+              "f32": (("1e-12", 1e-12), ("1e-18", 1e-18))}        # (1e-18)^2 is still a normal float32; (1e-20)^2 is not
+SHIFT_SCALES = (("2^-40", 2.0**-40), ("2^-45", 2.0**-45))       # A x0 + c r0 is exactly representable in float64
+
+
+def _frac_c(z):
+    z = complex(z)
+    return Fraction(z.real), Fraction(z.imag)
+
+
+def exact_norm_residual(Aent, bflt, x):
+    """||b - A x||_2 for Gaussian-integer A (entries [re, im]) and floating-point b, x, in rational arithmetic."""
+    n = len(bflt)
+    xs = [_frac_c(t) for t in x]
+    tot = Fraction(0)
+    for i in range(n):
+        re, im = _frac_c(bflt[i])
+        for k in range(n):
+            a, b2 = Aent[i][k]
+            re -= a * xs[k][0] - b2 * xs[k][1]
+            im -= a * xs[k][1] + b2 * xs[k][0]
+        tot += re * re + im * im
+    return math.sqrt(float(tot)) if tot else 0.0
+
+
+def rhs_dtypes(job):
+    return ["c128"] if job["complex"] else ["f64", "f32"]
+
+
+_NP = {"f64": np.float64, "f32": np.float32, "c128": np.complex128}
+_TOL = {"f64": 1e-14, "c128": 1e-14, "f32": 1e-7}
+
+
+def rhs_variants(job):
+    """(kind, dtype, scale name, c): `rhs` = right-hand side c * r0 with x0 = 0; `shift` = the job's own x0 with
+    b' = A x0 + c r0 (tiny initial residual next to an O(1) right-hand side, exactly representable)."""
+    out = []
+    for dt in rhs_dtypes(job):
+        for sn, c in RHS_SCALES[dt]:
+            out.append(("rhs", dt, sn, c))
+        if job["x0name"] != "0" and dt != "f32":
+            for sn, c in SHIFT_SCALES:
+                out.append(("shift", dt, sn, c))
+    return out
+
+
+def _rhs_problem(job, kind, dt, c):
+    """Floating-point inputs of one variant and the exact expectations relative to the initial residual."""
+    npdt = _NP[dt]
+    A = _np(job["A"])
+    b = _np(job["b"])[:, 0]
+    x0 = _np(job["x0"])[:, 0]
+    r = b - A @ x0                                   # small (Gaussian) integers: exact
+    if not job["complex"]:
+        A, r, x0 = A.real, r.real, x0.real
+    Ad = A.astype(npdt)
+    if kind == "rhs":
+        bp = (c * r).astype(npdt)                    # rounded once: the actual right-hand side is bp
+        x0p = np.zeros(len(r), dtype=npdt)
+    else:
+        bp = (A @ x0 + c * r).astype(npdt)           # exact for the scales of SHIFT_SCALES
+        x0p = x0.astype(npdt)
+    return Ad, bp, x0p, r
+
+
+def rhs_unit(job, dt, bp, x0p, r0n):
+    eps = float(np.finfo(_NP[dt]).eps)
+    return eps * (job["cond"] + (job["anorm"] * float(np.linalg.norm(x0p)) + float(np.linalg.norm(bp.astype(np.complex128)))) / r0n)
+
+
+def observe_scaled_rhs(job, only=None):
+    """One catalog system flagged hom: scaled right-hand sides and tiny initial residuals, both entry points, every m.
+    Returns (violations, calls, {dtype: largest excess observed in units of eps * (...)})."""
+    viol, n_eval, worst = [], 0, {}
+    n = job["n"]
+    Aent = job["A"]["e"]
+    rho0 = math.sqrt(lsqfam.q_to_float(job["per_m"]["0"]["rho2_0"]))
+    for kind, dt, sn, c in rhs_variants(job):
+        Ad, bp, x0p, r = _rhs_problem(job, kind, dt, c)
+        r0n = exact_norm_residual(Aent, bp, x0p)
+        if r0n == 0.0:
+            continue
+        unit = rhs_unit(job, dt, bp, x0p, r0n)
+        allowed = RHS_C[dt]
+        tol = _TOL[dt]
+        for api in ("gmres", "inv"):
+            prev = None
+            for m in range(1, n + 3):
+                if only is not None and ((kind, dt, sn, api) != tuple(only[:4]) or m not in only[4]):
+                    prev = None
+                    continue
+                if m == 1:
+                    prev = 1.0
+                rec = job["per_m"][str(m)]
+                rho_rel = math.sqrt(lsqfam.q_to_float(rec["rho2"])) / rho0
+                at = dict(base_attrs(job, m, api, tol), source="scaled_rhs", dtype=dt, variant=kind, rhs_scale=sn,
+                          tiny_residual=bool(r0n < 1e-10))
+                case = f"{job['id']} {kind} c={sn} {dt} m={m} {api}"
+                rp = {"rhs_job": dict(_core(job), cond=job["cond"], anorm=job["anorm"],
+                                      per_m={k: job["per_m"][k] for k in {"0", str(max(m - 1, 1)), str(m)} if k in job["per_m"]}),
+                      "variant": [kind, dt, sn], "m": m, "api": api}
+                n_eval += 1
+                x0_arg = None if (kind == "rhs" and api == "inv") else x0p
+                try:
+                    x, cols = call(api, Ad, bp, x0_arg, m, tol, "column")
+                except Exception as e:  # noqa: BLE001
+                    viol.append(Violation(PROP, "exception", case, dict(at, iterate="n/a", **common.exc_info(e)),
+                                          f"{type(e).__name__}: {str(e)[:120]}", replay=rp))
+                    prev = None
+                    continue
+                if x.shape != bp.shape:
+                    viol.append(Violation(PROP, "shape", case, dict(at, iterate="n/a"), f"solution has shape {x.shape}", replay=rp))
+                    prev = None
+                    continue
+                if not np.all(np.isfinite(x)):
+                    viol.append(Violation(PROP, "nonfinite", case, dict(at, iterate="nonfinite"), "solution contains NaN/Inf", replay=rp))
+                    prev = None
+                    continue
+                rel = exact_norm_residual(Aent, bp, x) / r0n
+                ratio = (rel - rho_rel) / unit
+                worst[dt] = max(worst.get(dt, 0.0), ratio)
+                slack = allowed * unit
+                if rel > rho_rel + slack:
+                    viol.append(Violation(PROP, "residual", case, dict(at, iterate="other", excess=_excess_bucket(ratio)),
+                                          f"||b' - A x|| / ||r0'|| = {rel:.9g} (||r0'|| = {r0n:.3g}), exact optimum rho_m / ||r0|| = "
+                                          f"{rho_rel:.9g} (independent of the scale): excess {ratio:.3g} units of eps*(cond + ...), "
+                                          f"allowed {allowed:g}", replay=rp))
+                if rel > 1.0 + slack:
+                    viol.append(Violation(PROP, "initial_residual", case, dict(at, iterate="other"),
+                                          f"||b' - A x|| / ||r0'|| = {rel:.9g} > 1", replay=rp))
+                if prev is not None and rel > prev + slack:
+                    viol.append(Violation(PROP, "monotone", case, dict(at, iterate="other"),
+                                          f"relative residual {rel:.9g} at m > {prev:.9g} at m - 1", replay=dict(rp, monotone=True)))
+                if cols > m + 1:
+                    viol.append(Violation(PROP, "products", case, dict(at, iterate="n/a", products=cols),
+                                          f"{cols} products with A for one column and max_iters={m}", replay=rp))
+                prev = rel
+    return viol, n_eval, worst
+
+
+def rhs_batch_jobs(jobs):
+    """Per matrix: its hom-flagged columns with x0 = 0 (the only one twice if there is just one)."""
+    by = {}
+    for j in jobs:
+        if j.get("hom") and j["x0name"] == "0":
+            by.setdefault(j["mat"], []).append(j)
+    return [{"mat": k, "cols": (v if len(v) >= 2 else v * 2)} for k, v in by.items()]
+
+
+def observe_scaled_batch(mj, only=None):
+    """A block of right-hand sides of very different sizes (O(1) next to tiny, both orders): every column relative to
+    its own initial residual against its own TLC optimum."""
+    cols = mj["cols"]
+    viol, n_eval, worst = [], 0, {}
+    n, k = cols[0]["n"], len(cols)
+    cplx = any(c["complex"] for c in cols)
+    Aent = cols[0]["A"]["e"]
+    for dt in (["c128"] if cplx else ["f64", "f32"]):
+        npdt, tol, allowed = _NP[dt], _TOL[dt], RHS_C[dt]
+        A = _np(cols[0]["A"])
+        A = (A if cplx else A.real).astype(npdt)
+        for sn, c in RHS_SCALES[dt][::2]:
+            for pattern in ("tiny_last", "tiny_first"):
+                fac = [(c if (j % 2 == 1) == (pattern == "tiny_last") else 1.0) for j in range(k)]
+                Bs = [_np(cj["b"])[:, 0] for cj in cols]
+                B = np.stack([(f * (b if cplx else b.real)).astype(npdt) for f, b in zip(fac, Bs)], 1)
+                for api in ("gmres", "inv"):
+                    for m in sorted({1, max(n - 1, 1), n, n + 2}):
+                        if only is not None and (dt, sn, pattern, api, m) != tuple(only):
+                            continue
+                        n_eval += 1
+                        case = f"{mj['mat']} [{k} columns x {fac}] {dt} m={m} {api}"
+                        rp = {"rhs_batch": {"mat": mj["mat"], "cols": [dict(_core(cj), hom=True, cond=cj["cond"], anorm=cj["anorm"],
+                                                                            per_m={q: cj["per_m"][q] for q in ("0", str(m))})
+                                                                       for cj in cols]},
+                              "only": [dt, sn, pattern, api, m]}
+                        at0 = {"source": "scaled_rhs", "variant": "batch", "pattern": pattern, "rhs_scale": sn, "n": n, "dtype": dt,
+                               "m": m, "api": api, "tol": tol, "columns": k, "x0": "0", "batch": "mixed_scales",
+                               "kdims": sorted({cj["kdim"] for cj in cols}), "regime": "mixed"}
+                        try:
+                            X, used = call(api, A, B, None, m, tol)
+                        except Exception as e:  # noqa: BLE001
+                            viol.append(Violation(PROP, "exception", case, dict(at0, iterate="n/a", **common.exc_info(e)),
+                                                  f"{type(e).__name__}: {str(e)[:120]}", replay=rp))
+                            continue
+                        if X.shape != B.shape or not np.all(np.isfinite(X)):
+                            viol.append(Violation(PROP, "shape" if X.shape != B.shape else "nonfinite", case,
+                                                  dict(at0, iterate="n/a"), f"solution shape {X.shape} / non-finite entries", replay=rp))
+                            continue
+                        for j, cj in enumerate(cols):
+                            r0n = exact_norm_residual(Aent, B[:, j], np.zeros(n))
+                            rho0 = math.sqrt(lsqfam.q_to_float(cj["per_m"]["0"]["rho2_0"]))
+                            rho_rel = math.sqrt(lsqfam.q_to_float(cj["per_m"][str(m)]["rho2"])) / rho0
+                            unit = float(np.finfo(npdt).eps) * (cj["cond"] + 1.0)
+                            rel = exact_norm_residual(Aent, B[:, j], X[:, j]) / r0n
+                            ratio = (rel - rho_rel) / unit
+                            worst[dt] = max(worst.get(dt, 0.0), ratio)
+                            if rel > rho_rel + allowed * unit:
+                                at = dict(at0, regime=regime_of(m, cj["kdim"], n), kdim=cj["kdim"], column=j, iterate="other",
+                                          column_scale=("tiny" if fac[j] != 1.0 else "one"), excess=_excess_bucket(ratio),
+                                          tiny_residual=bool(r0n < 1e-10))
+                                viol.append(Violation(PROP, "residual", case + f" column {j} ({cj['id']})", at,
+                                                      f"||b_j - A x_j|| / ||b_j|| = {rel:.9g} (||b_j|| = {r0n:.3g}), exact optimum {rho_rel:.9g}: "
+                                                      f"excess {ratio:.3g} units of eps*(cond+1), allowed {allowed:g}", replay=dict(rp, column=j)))
+                        if used > k * (m + 1):
+                            viol.append(Violation(PROP, "products", case, dict(at0, products=used),
+                                                  f"{used} column products with A for {k} columns and max_iters={m}", replay=rp))
+    return viol, n_eval, worst
+
+
 # ------------------------------------------------------------------ ill-conditioned numeric family
 def illcond_specs(tier, seed):
     """(n, cond, dtype): prescribed singular values 1 .. 1/cond, random orthogonal factors; m >= n."""
@@ -758,9 +980,11 @@ def make_jobs(cases, wcases, out):
     jobs = []
     for c in cases:
         per_m = {str(m): out[(c["id"], m)] for m in range(0, c["n"] + 3)}
+        An = lsqfam.mat_to_np(c["A"])
         jobs.append({"id": c["id"], "mat": c["mat"], "A": lsqfam.jmat(c["A"]), "b": lsqfam.jmat(c["b"]),
                      "x0": lsqfam.jmat(c["x0"]), "n": c["n"], "kdim": c["kdim"], "complex": c["complex"],
-                     "normal": c["normal"], "x0name": c["x0name"], "per_m": per_m})
+                     "normal": c["normal"], "x0name": c["x0name"], "per_m": per_m, "hom": bool(c.get("hom")),
+                     "cond": float(np.linalg.cond(An)), "anorm": float(np.linalg.norm(An, 2))})
     wjobs = []
     for c in wcases:
         # the expected values are TLC's (wide integers decoded by run_gmres_model)
